@@ -9,6 +9,12 @@ NOTE = ('Trusted: Lean 4.33 kernel; axioms within {propext, Classical.choice, Qu
         'Python generators/oracles; 64-bit usize.')
 
 CLAIMS = {
+ 'C03': dict(category='proof', technique='Lean 4 theorems: payload round trip by induction over the message list (many1_complete_roundtrip), stop-at-first-bad, rejections, application data / heartbeat, one-step = two-step + exact-value correspondence',
+   text='Theorems payload_roundtrip (any non-empty list of well-formed CCS / alert / handshake messages decodes to exactly those messages in order), payload_stops_at_first_bad (two-step remainder = undecoded tail), payload_first_bad_rejected, empty_payload_rejected, unknown_content_type_rejected (all types outside 20..24), appdata_payload (any payload = one blob), heartbeat_payload (padding as remainder), one_step_eq_two_step. Tie: independent encoder for every content type, derived two-step calls, stop/first-bad/empty/unknown-type families with exact or class oracles, corruptions.',
+   design_ref='DESIGN.md section 6 C03'),
+ 'C04': dict(category='proof', technique='Lean 4 round-trip theorem for all 17 handshake variants (encoder/parser inverse, induction for lists), confinement and rejection theorems + exact-value correspondence with an independent encoder',
+   text='Theorem handshake_roundtrip: for every value of the 17 variants within field ranges (WFHandshake restricts no code point except those that select the structure), parseMessageHandshake (encHandshake h ++ r) = ok r h, via per-body theorems (ClientHello with/without session id and extension block, ServerHello for 0x0301-0x0303 / SSLv3 / draft-18, both CertificateRequest forms — the legacy form provably cannot be taken for the 1.2 form — certificate chains by induction, etc.); handshake_confined (nothing beyond the 24-bit length influences the result); rejection theorems for session id > 32, odd/overlong cipher list, overlong compression list, short NewSessionTicket, certificate list / status blob overrun, unsupported ServerHello version, unknown type, cut mandatory fields. Tie: exact values from the independent Python encoder through every public body parser, every length field corrupted, rejection shapes, confinement pairs.',
+   design_ref='DESIGN.md section 6 C04'),
  'C13': dict(category='proof', technique='Lean 4 round-trip theorems (encoder/parser inverse for all field values) + curve-type rejection + content/signature switch, with exact-value and exhaustive code-point correspondence',
    text='Theorems dh_roundtrip, explicitPrime_roundtrip, ecParameters_roundtrip (all 65536 named groups; explicit prime with all six u8-length fields), ecdh_roundtrip, digitallySigned(_Old)_roundtrip — each of the form parse (enc v ++ r) = ok r v for every v within field ranges and every trailing r, i.e. exact value and exact self-delimitation; curve_type_rejected for every curve type other than 1 and 3; contentAndSignature_eq / _roundtrip for any content parser and both flag values. Tie: independent Python encoder (exact), all 256 curve types, named-group sweep, corruptions and all truncations.',
    design_ref='DESIGN.md section 6 C13'),
